@@ -33,6 +33,12 @@ def execute(case):
             line["kin"] = kname(obj.key_signature)
         else:
             obj = target = seq
+        if idx % 6 == 5:
+            # history: the object was transposed before (and back); the judged call starts from what it holds now
+            obj.transpose(2)
+            obj.transpose(-2)
+            if kind == "bar":
+                line["kin"] = kname(obj.key_signature)
         line["pre"] = P.views(target)
         flag = obj.transpose(i)
         line["flag"] = bool(flag)
